@@ -129,6 +129,11 @@ func (cr *clRun) issueAdmin(i int, op Op) {
 		a.arg = cr.pickSnapshot(op.A)
 	case "rmrep", "seterr", "addrep", "verify":
 		a.arg = cr.rep(op.A).addr
+		if op.K == "verify" && c.ctrl != nil {
+			cr.w.Wait()
+			a.verifyWasWO = modeOf(c.ctrl.ListReplicas(), a.arg) == types.WO
+			a.verifyPre = cr.chainsOnDisk(cr.rep(op.A))
+		}
 	}
 	a.addsBefore = cr.res.Stats["membership_add"]
 	cr.curAdmin = a
@@ -255,6 +260,24 @@ func (cr *clRun) judgeAdmin(a *adminOp, op Op, pre map[string]string, idleBefore
 	}
 	rf := c.rf
 	switch a.kind {
+	case "verify":
+		// A verifyrebuild request that does not come from the rebuilding replica's own sync (which sends
+		// it after the copy): the controller may accept it only if the snapshot chains match ("promotion
+		// happens only after the controller has verified that the snapshot chains match"). It cannot know
+		// whether the copy has finished, so an accepted request with matching chain NAMES is the harness's
+		// doing, not jiva's: the run is not judged any further.
+		if a.err != nil || !a.verifyWasWO || c.ctrl == nil || modeOf(c.ctrl.ListReplicas(), a.arg) != types.RW {
+			return
+		}
+		cr.res.stat("out_of_band_verify_accepted", 1)
+		post := cr.chainsOnDisk(cr.rep(op.A))
+		if a.verifyPre != nil && post != nil && a.verifyPre.same(post) && !post.match() {
+			cr.viol("C07", "verify-accepted-with-different-chains", "verifyrebuild of %s was accepted and the replica promoted although its snapshot chain %v (checkpoint %q) does not match the RW replica's %v",
+				a.arg, post.wo, post.woCkpt, post.rw)
+			return
+		}
+		cr.res.Abandoned = "out-of-band verifyrebuild accepted (chain names matched, copy possibly unfinished)"
+		return
 	case "snap":
 		if a.err != nil {
 			return
@@ -882,4 +905,78 @@ func (cr *clRun) deepChecks(when string, promoted string) {
 		cr.res.stat("checkpoint_checks", 1)
 	}
 	cr.checkSnapshotsAcrossReplicas(when)
+}
+
+// chainPair: the snapshot chains (file names below the head, newest first) of a rebuilding replica and
+// of an RW replica, read from the directories.
+type chainPair struct {
+	wo, rw []string
+	woCkpt string
+}
+
+func (p *chainPair) same(q *chainPair) bool {
+	return p.woCkpt == q.woCkpt && fmt.Sprint(p.wo) == fmt.Sprint(q.wo) && fmt.Sprint(p.rw) == fmt.Sprint(q.rw)
+}
+
+// match: from the rebuilding replica's sync point (its checkpoint; the whole chain if it has none)
+// upward both replicas have the same snapshots.
+func (p *chainPair) match() bool {
+	n := len(p.rw)
+	if p.woCkpt != "" {
+		found := false
+		for i, x := range p.rw {
+			if x == p.woCkpt {
+				n, found = i+1, true
+				break
+			}
+		}
+		if !found {
+			return false
+		}
+	}
+	if len(p.wo) < n {
+		return false
+	}
+	for i := 0; i < n; i++ {
+		if p.wo[i] != p.rw[i] {
+			return false
+		}
+	}
+	return true
+}
+
+func (cr *clRun) chainsOnDisk(target *repNode) *chainPair {
+	c := cr.c
+	if c.ctrl == nil || !target.up {
+		return nil
+	}
+	names := func(rn *repNode) ([]string, string, bool) {
+		var vm volMeta
+		if readJSON(filepath.Join(rn.dir, "volume.meta"), &vm) != nil || vm.Head == "" {
+			return nil, "", false
+		}
+		ch, _, err := diskChain(rn.dir, vm.Head)
+		if err != nil || len(ch) == 0 {
+			return nil, "", false
+		}
+		return ch[1:], vm.Checkpoint, true
+	}
+	p := &chainPair{}
+	var ok bool
+	if p.wo, p.woCkpt, ok = names(target); !ok {
+		return nil
+	}
+	for _, r := range c.ctrl.ListReplicas() {
+		if r.Mode != types.RW || r.Address == target.addr {
+			continue
+		}
+		for _, rn := range c.reps {
+			if rn.addr == r.Address && rn.up {
+				if p.rw, _, ok = names(rn); ok {
+					return p
+				}
+			}
+		}
+	}
+	return nil
 }
